@@ -16,6 +16,7 @@ import numpy as np
 import z3
 
 from symx.core import PI_F, TWOPI_F, SBool, SInt, SReal, Unsupported, Verdict, _real_term, assume, cur, explore, free_vars, mfloat, mval, real, refute, rv, solve
+from symx.ext_c02 import Gram, lin_getitem, lin_ufunc
 from symx.runner import Ob
 from symx.stubs import shadow
 
@@ -31,9 +32,17 @@ TECHNIQUE = ("the real Sensor.collectObservations/attemptObservation/canSlew/del
              "(unsat = for every value of the primitives and parameters); counterexamples are replayed on the float code.  vismag-* obligations: the "
              "limiting-magnitude step of Optical.isVisible is not a primitive there - the real calculatePhaseAngle -> subtendedAngle and "
              "apparentVisualMagnitude run on symbolic Sun / target / sensor position vectors and the oracle decides the constraint from those "
-             "positions alone (cosine of the angle at the target between the directions to the Sun and to the sensor against the limit's)")
+             "positions alone (cosine of the angle at the target between the directions to the Sun and to the sensor against the limit's).  los-* / "
+             "sun-* obligations: the line-of-sight step of Sensor.isVisible resp. the Sun-exclusion step of Optical.isVisible is not a primitive there - the "
+             "real lineOfSight resp. the real direction arithmetic of Optical.isVisible and checkSpaceSensorLightingConditions run on symbolic sensor / "
+             "target / Sun positions (formal vectors with a Gram cut: dot products and norms of linear combinations of the positions are polynomials "
+             "in the entries of their Gram matrix, which are the solver variables) and the oracle decides the constraint from the positions alone "
+             "(closest point of the segment sensor-target to the geocentre against the Earth's radius; angle between the line of sight and the Sun "
+             "direction against 15 degrees)")
 FLOAT_SEMANTICS = ("exact real arithmetic over the primitives (comparisons of primitives with limits; two products: slew_rate*(t - t_last), rcs^(1/4)*aux); "
-                   "vismag-*: exact real arithmetic over the position vectors with sqrt / arccos / phase-function / log10 contracts")
+                   "vismag-*: exact real arithmetic over the position vectors with sqrt / arccos / phase-function / log10 contracts; los-* / sun-*: exact real "
+                   "arithmetic over the Gram entries of the positions with sqrt / arccos contracts; the oracle there has a tolerance band (1 km^2 on the squared "
+                   "closest-approach distance, 1e-9 on the cosine of the Sun angle) inside which either answer of the code is accepted")
 ENCODED = [
     "resonaate.sensors.sensor_base:Sensor.collectObservations",
     "resonaate.sensors.sensor_base:Sensor.attemptObservation",
@@ -44,6 +53,8 @@ ENCODED = [
     "resonaate.sensors.radar:Radar.maximumRangeTo",
     "resonaate.sensors.advanced_radar:AdvRadar",
     "resonaate.sensors.optical:Optical.isVisible",
+    "resonaate.physics.sensor_utils:lineOfSight",
+    "resonaate.physics.sensor_utils:checkSpaceSensorLightingConditions",
     "resonaate.physics.sensor_utils:calculatePhaseAngle",
     "resonaate.physics.maths:subtendedAngle",
     "resonaate.physics.sensor_utils:apparentVisualMagnitude",
@@ -74,10 +85,22 @@ BOUNDS = {
                                                      "(0, pi) (given as ulim = cosine of that phase angle, -1 < ulim < 1); the limit is parametrised against one "
                                                      "target per scene: the primary (collect, 0 background), the single background target (collect, primary's "
                                                      "magnitude a free variable) or the estimate (predict); quick: 3 of the 6 host/scene combinations",
+    "los-* (line of sight on real geometry)": "space radar / space optical (thorough: also ground optical, ground advanced radar), full-sky masks, no minimum range; any "
+                                              "sensor and target positions (collect: primary + 1 background target, both decided on their positions; predict: the "
+                                              "estimate) at or beyond the Earth's reference radius from the geocentre, sensor != target; all other primitives free",
+    "sun-* (Sun exclusion on real geometry)": "space optical, full-sky masks, no minimum range; any Sun / target / sensor positions with Sun != target != sensor != Sun; "
+                                              "one target per scene decided on the positions: the primary (collect, 0 background), the estimate (predict), thorough: "
+                                              "the single background target; all other primitives free; cone angle: the documented default pi/12",
     "epochs": "O5 measurement epoch: four concrete instants (incl. non-zero seconds); everything else does not depend on the epoch value",
 }
 OUTSIDE = [
-    "the numeric values of the primitives (range/az/el/LoS/FoV/flux/vismag/galactic/lighting/limb are C14/C04's subject; here they are free variables)",
+    "the numeric values of the primitives (range/az/el/LoS/FoV/flux/vismag/galactic/lighting/limb are C14/C04's subject; here they are free variables) - except "
+    "the limiting magnitude in vismag-*, the line of sight in los-* and the Sun cone of space sensors in sun-*, which are decided on the positions",
+    "los-* / sun-*: the other primitives of the same target (range, azimuth, elevation, FoV membership, flux, ...) stay free variables that are not tied to the "
+    "positions; answers of the code inside the oracle's tolerance band (closest approach within 1 km^2 of the squared Earth radius, cosine of the Sun angle within 1e-9 of "
+    "cos 15 deg: < vs <= at the threshold is not distinguished); sensor or target inside the Earth's reference sphere (ground sites at high latitude on the "
+    "ellipsoid: lineOfSight assumes a spherical Earth); a Sun cone angle other than the default; the parallax between the Sun direction seen from the target "
+    "(code) and from the sensor (docstring): an answer that is right under either reading is accepted",
     "noise statistics ('within the sensor's stated noise' is distributional): the noise draw is pinned to zero (collect) or left arbitrary and "
     "required not to enter (noise-off paths)",
     "sensor time-bias events (host.sensor_time_bias_event_queue is empty): _applyTimeBias is not executed",
@@ -114,6 +137,24 @@ ASSUMPTIONS = [
     "is conclusive, sat only from the complete set); one query per conjunct of a goal, constraints cut to the conjunct's cone of influence (constraints sharing no variable, transitively, with "
     "the goal are dropped: they are over other variables and satisfiable on a feasible path); counterexample search only: a candidate is first looked for with the "
     "reference target at the origin, the sensor on the x axis and the Sun in the x-y plane, and is replayed like any other",
+    "los-* / sun-* scenes: lineOfSight (los-*, every target of the scene) / checkSpaceSensorLightingConditions (sun-*, reference target) are NOT stubbed.  The "
+    "positions are formal vectors over base vectors (los: the sensor and target positions themselves; sun: R = target, D = Sun - target, B = target - sensor, i.e. "
+    "Sun = R + D, sensor = R - B - a re-parametrisation of three free positions); differences, scalings, divisions by a scalar and the slice [:3] done by the code "
+    "are followed on the expansion; numpy dot / scipy norm in sensor_utils and scipy norm in optical applied to 3-vectors with an expansion -> the bilinear form in "
+    "the Gram variables G_x_y resp. its non-negative root (engine sqrt contract; norm**2 -> the form itself); Gram variables constrained by: diagonal > 0, "
+    "Cauchy-Schwarz per pair, 3x3 determinant >= 0 (exactly the Gram matrices of vectors in R^3; a model is turned into coordinates by an eigen-decomposition); "
+    "an operation that is not followed falls through to the coordinate terms and ties the Gram variables to the coordinates; a scalar built from coordinates outside "
+    "dot / norm and then used as a coefficient is not tied (can only produce a candidate that does not reproduce = harness error, never a pass)",
+    "los-* preconditions: |sensor|^2, |target|^2 >= Earth.radius^2, |target - sensor|^2 > 0; Earth.radius is the repository's constant (also in the oracle); "
+    "domain conditions met on the way (divisors != 0, arccos argument in [-1, 1]) are assumed",
+    "sun-* arccos: engine contract (angle in [0, pi] with the given cosine, strictly decreasing, functional) pinned on a 5 degree grid and at pi/12: for a grid angle g, "
+    "u >= cos(g) + 1e-12 => arccos(u) < g and u <= cos(g) - 1e-12 => arccos(u) > g (cos(g) in double arithmetic, error < 1e-15)",
+    "los-* / sun-* oracle: line of sight <=> a + 2 l (c - a) + l^2 (a + b - 2c) >= R^2 with a = |sensor|^2, b = |target|^2, c = sensor.target, l = clamp((a - c) / (a + b - 2c), "
+    "0, 1) (projection of the geocentre onto the segment, parametrised from the sensor; the code parametrises from the target); Sun exclusion <=> cosine of the angle "
+    "between target - sensor and Sun - target (or Sun - sensor) <= cos(pi/12); replay: the same on float coordinates, real lineOfSight / "
+    "checkSpaceSensorLightingConditions un-stubbed",
+    "los-* / sun-* solver use: one query per conjunct of a goal; first with the constraints over the goal's variables only, then with the cone of influence without the "
+    "3x3 determinant fact, then with the full cone (dropping hypotheses only weakens them: any unsat is conclusive; sat is only taken from the full cone)",
     "calculateRadarCrossSection -> q^4 with q >= 0 a variable and (q^4)**0.25 = q (non-negative fourth root)",
     "norm(pointing[:3]) = n > 0 with n^2 = |pointing[:3]|^2 (used only by the boresight obligation)",
     "numpy.random (measurements) -> zero draw in collectObservations runs, arbitrary symbolic draw in the noise-off runs",
@@ -129,7 +170,8 @@ LEVEL_TEXT = ("Bounded symbolic verification of the observation pipeline: for ev
               "and that boresight / time_last_tasked move iff the slew test passes.  Right level because the claim is control/data flow over "
               "many constraint combinations (a few hundred paths per sensor kind), which sampling geometries cannot cover.")
 LEVEL_NOTE = ("Primitives are free variables (their geometry is C14/C04) except the limiting-magnitude step in the vismag-* obligations (phase angle from the "
-              "positions; phase function / log10 by monotonicity contracts); up to 2 background targets / 2 sensors; noise statistics, time bias events, "
+              "positions; phase function / log10 by monotonicity contracts), the line-of-sight step in los-* and the Sun-cone step in sun-* (real code on formal "
+              "position vectors, Gram cut); up to 2 background targets / 2 sensors; noise statistics, time bias events, "
               "database rows outside; replay answers most primitives with model values at the shadow points.")
 
 FINDING_BG_NOSLEW = "C02-background-without-slew"
@@ -205,7 +247,10 @@ def EQ(a, b, tol=1e-9):
 # tagged values: every vector / scalar handed to the real code remembers which sensor / target it belongs to
 # ----------------------------------------------------------------------------------------------------------------------
 class TVec(np.ndarray):
-    """ndarray (object dtype of proxies, or floats) with a set of tags that survives slicing and arithmetic."""
+    """ndarray (object dtype of proxies, or floats) with a set of tags that survives slicing and arithmetic.
+
+    `lin` (los-* / sun-* scenes): expansion of the position part over the scene's base vectors (symx.ext_c02), followed through linear
+    operations and `[:3]`; None = not followed."""
 
     def __new__(cls, items, tags=()):
         items = list(items)
@@ -219,8 +264,16 @@ class TVec(np.ndarray):
 
     def __array_finalize__(self, obj):
         self.tags = getattr(obj, "tags", frozenset())
+        self.lin = None
+
+    def __getitem__(self, key):
+        out = super().__getitem__(key)
+        if isinstance(out, TVec):
+            out.lin = lin_getitem(self, key, out)
+        return out
 
     def __array_ufunc__(self, ufunc, method, *inputs, out=None, **kw):
+        lin = lin_ufunc(ufunc, method, inputs) if out is None else None
         tags = set()
         args = []
         for i in inputs:
@@ -236,6 +289,7 @@ class TVec(np.ndarray):
         if isinstance(res, np.ndarray) and res.ndim > 0:
             res = res.view(TVec)
             res.tags = frozenset(tags)
+            res.lin = lin
         return res
 
 
@@ -303,6 +357,10 @@ class World:
         self.vischain = vischain  # limiting-magnitude chain on real geometry (phase angle from the position vectors)
         self.vmref = None  # vischain scenes: the target whose magnitude is computed from the positions (all others: free variables)
         self.margins = []  # (lhs, rhs, scale) of the oracle's own comparisons that a robust counterexample keeps apart
+        self.magnitudes = []  # (term, lo, hi): ranges in which a robust counterexample keeps squared lengths (comfortable in doubles)
+        # los-* / sun-* scenes (set by Scene.arm_chain): which chain runs un-stubbed, the Gram cut of the formal position vectors, the
+        # coordinate terms of its base vectors, the tags of the targets whose positions are formal
+        self.chain, self.gram, self.base_coords, self.formal = None, None, None, frozenset()
         try:
             self.path = cur() if values is None else None
         except RuntimeError:
@@ -530,6 +588,49 @@ class World:
         p.apps["log10"].append((l, t))
         return SReal(l)
 
+    # -- Gram cut of formal position vectors (los-* / sun-* scenes) -------------------------------------------
+    def fall_through(self, what):
+        """An operation on formal vectors that is not followed: from here on the cut variables are tied to the coordinates."""
+        g = self.gram
+        g.fallthroughs.append(what)
+        if not g.linked:
+            g.linked = True
+            assume(*g.link(self.base_coords))
+
+    def gdot(self, genuine):
+        def dot_(a, b, *args, **kw):
+            la, lb = getattr(a, "lin", None), getattr(b, "lin", None)
+            if la is not None and lb is not None and np.shape(a) == (3,) and np.shape(b) == (3,) and not args and not kw:
+                return self.gram.dot(la, lb)
+            self.fall_through("dot")
+            return genuine(a, b, *args, **kw)
+
+        return dot_
+
+    def gnorm(self, otherwise, fall=False):
+        def norm_(a, *args, **kw):
+            la = getattr(a, "lin", None)
+            if la is not None and np.shape(a) == (3,) and not args and not kw:
+                return self.gram.norm(la)
+            if fall:
+                self.fall_through("norm")
+            return otherwise(a, *args, **kw)
+
+        return norm_
+
+    def pin_arccos(self):
+        """sun-* scenes: the arccos contract of the engine fixes no values between 0, pi/2 and pi; the Sun cone is compared with an angle
+        constant, so the contract is pinned on a 5 degree grid and at the documented cone angle: for a grid angle g with cosine in
+        (lo, hi):  u >= hi => arccos(u) < g,  u <= lo => arccos(u) > g  (arccos strictly decreasing; lo/hi = double cosine -+ 1e-12)."""
+        if not (self.sym and self.chain == "sun"):
+            return
+        apps = cur().apps.get("arccos", [])
+        for g in [SUN_CONE] + [PI_F * k / 36 for k in range(1, 36)]:
+            c = math.cos(g)
+            lo, hi, gz = rv(c - 1e-12), rv(c + 1e-12), rv(g)
+            for a, u in apps:
+                assume(z3.Implies(u >= hi, a < gz), z3.Implies(u <= lo, a > gz))
+
     # -- noise -------------------------------------------------------------------------------------------
     def randn(self, *shape):
         self.randn_calls += 1
@@ -580,16 +681,28 @@ class _Shadows:
         geo = {} if (not W.sym and W.realgeo) else {"getRange": W.getRange, "getAzimuth": W.getAzimuth, "getElevation": W.getElevation}
         slew = {} if (not W.sym and W.realgeo) else {"subtendedAngle": W.subtendedAngle}
         sbn = {"norm": W.norm} if W.sym else {}
+        formal = lambda *vs: all(getattr(v, "lin", None) is not None for v in vs)  # noqa: E731
+        los = W.lineOfSight
+        if W.chain == "los":
+            # the real lineOfSight runs for the targets whose positions are formal (symbolic runs: its dot / norm by the Gram cut)
+            real_los = SB.lineOfSight
+            los = lambda a, b: real_los(a, b) if formal(a, b) else W.lineOfSight(a, b)  # noqa: E731
+        spl = W.checkSpaceSensorLightingConditions
+        if W.chain == "sun":
+            real_spl = OP.checkSpaceSensorLightingConditions
+            spl = lambda bore, sun_unit, *a, **k: real_spl(bore, sun_unit, *a, **k) if formal(bore, sun_unit) else W.checkSpaceSensorLightingConditions(bore, sun_unit, *a, **k)  # noqa: E731
         self.ctx = [
-            shadow(SB, getSlantRangeVector=W.getSlantRangeVector, lineOfSight=W.lineOfSight, **geo, **slew, **sbn),
+            shadow(SB, getSlantRangeVector=W.getSlantRangeVector, lineOfSight=los, **geo, **slew, **sbn),
             shadow(PR, getSlantRangeVector=W.getSlantRangeVector),
             shadow(MS, getSlantRangeVector=W.getSlantRangeVector, random=RandomStub, getRangeRate=W.getRangeRate, **geo),
             shadow(RD, calculateRadarCrossSection=W.calculateRadarCrossSection, **({"getRange": geo["getRange"]} if geo else {})),
             shadow(OP, Sun=SunStub, calculateIncidentSolarFlux=W.calculateIncidentSolarFlux,
-                   checkGalacticExclusionZone=W.checkGalacticExclusionZone, checkSpaceSensorLightingConditions=W.checkSpaceSensorLightingConditions,
+                   checkGalacticExclusionZone=W.checkGalacticExclusionZone, checkSpaceSensorLightingConditions=spl,
                    checkSpaceSensorEarthLimbObscuration=W.checkSpaceSensorEarthLimbObscuration,
                    checkGroundSensorLightingConditions=W.checkGroundSensorLightingConditions, **self._magnitude_chain(W)),
         ]
+        if W.chain and W.sym:
+            self.ctx.append(shadow(SU, dot=W.gdot(SU.dot), norm=W.gnorm(SU.norm, fall=True)))
         if W.vischain and W.sym:
             from resonaate.physics import maths as MA
 
@@ -611,7 +724,7 @@ class _Shadows:
     def _magnitude_chain(W):
         """Names of resonaate.sensors.optical that make up the limiting-magnitude step."""
         free = dict(calculatePhaseAngle=W.calculatePhaseAngle, lambertianPhaseFunction=W.lambertianPhaseFunction,
-                    apparentVisualMagnitude=W.apparentVisualMagnitude, **({"norm": W.norm} if W.sym else {}))
+                    apparentVisualMagnitude=W.apparentVisualMagnitude, **({"norm": W.gnorm(W.norm) if W.chain else W.norm} if W.sym else {}))
         if not W.vischain:  # the apparent magnitude is one free variable per (sensor, target)
             return free
         # vischain scenes: for the reference target the real calculatePhaseAngle -> subtendedAngle and apparentVisualMagnitude run on the
@@ -657,8 +770,12 @@ class _Shadows:
 class Spec:
     """One sensor of the scene (what kind, which parameters are None / reduced)."""
 
-    def __init__(self, kind, space, rmin=True, rmax=True, calc_bg=True, reduced=False, vischain=False):
+    def __init__(self, kind, space, rmin=True, rmax=True, calc_bg=True, reduced=False, vischain=False, chain=None, chain_ref="primary"):
         self.kind, self.space, self.rmin, self.rmax, self.calc_bg, self.reduced = kind, space, rmin, rmax, calc_bg, reduced
+        # chain: "los" = the real lineOfSight runs on formal sensor / target positions (all targets of the scene); "sun" = the real
+        # checkSpaceSensorLightingConditions runs on the formal Sun / target / sensor positions of one target (chain_ref: "primary" or
+        # "background"; predictObservation: the estimate); the oracle decides those constraints from the positions
+        self.chain, self.chain_ref = chain, chain_ref
         # optical: limiting magnitude decided on the real Sun/target/sensor geometry; "primary" / "background" = which target of a
         # collectObservations scene the limit is parametrised against (predictObservation: the estimate)
         self.vischain = vischain
@@ -703,6 +820,9 @@ class Scene:
         from resonaate.common.labels import PlatformLabel
 
         self.W, self.specs, self.nbg = W, specs, nbg
+        W.chain = specs[0].chain
+        if W.chain and len(specs) != 1:
+            raise ValueError("los / sun chains: one sensor per scene")
         jd = _julian()
         self.jd = jd
         self.tnow = W.real("tnow")
@@ -794,6 +914,63 @@ class Scene:
                     W.pre += cs
                     assume(*cs)
 
+    def arm_chain(self, mode):
+        """los-* / sun-* scenes: give the position vectors their expansions over the base vectors of the scene and state the Gram facts.
+          los: base vectors = the positions themselves (sensor, targets; predictObservation: sensor, estimate), all relative to the
+               geocentre; precondition: nobody inside the reference sphere, sensor != target
+          sun: one reference target; base vectors R (its position), D (target -> Sun), B (sensor -> target), i.e. Sun = R + D,
+               sensor = R - B - a re-parametrisation of three free positions that makes the two directions the Sun cone is about base
+               vectors; nothing but the Gram facts is assumed"""
+        W = self.W
+        if not W.chain:
+            return
+        host, h = self.hosts[0], self.hosts[0].tag
+        if W.chain == "los":
+            tg = [self.estimate] if mode == "predict" else list(self.targets)
+            names = [h] + [t.tag for t in tg]
+            W.gram = Gram(names)
+            host.eci_state.lin = {h: 1}
+            for t in tg:
+                t.eci_state.lin = {t.tag: 1}
+            W.formal = frozenset(t.tag for t in tg)
+            if W.sym:
+                W.base_coords = {n: [z3.Real(f"eci_{n}_{i}") for i in range(3)] for n in names}
+                g, r2 = W.gram.var, rv(_earth_radius() ** 2)
+                pre = [g(n, n) >= r2 for n in names] + [g(h, h) + g(t.tag, t.tag) - 2 * g(h, t.tag) > 0 for t in tg]
+        else:
+            ref = self.estimate if mode == "predict" else (self.targets[1] if self.specs[0].chain_ref == "background" else self.targets[0])
+            W.gram = Gram(["R", "D", "B"])
+            sun = W.vec("sun", 3, {"S"})
+            ref.eci_state.lin, host.eci_state.lin, sun.lin = {"R": 1}, {"R": 1, "B": -1}, {"R": 1, "D": 1}
+            W.formal = frozenset([ref.tag])
+            if W.sym:
+                R = [z3.Real(f"eci_{ref.tag}_{i}") for i in range(3)]
+                W.base_coords = {"R": R, "D": [z3.Real(f"sun_{i}") - R[i] for i in range(3)], "B": [R[i] - z3.Real(f"eci_{h}_{i}") for i in range(3)]}
+                pre = []
+        for n in W.gram.var_names():
+            W.names[n] = "real"
+        if W.sym:
+            pairwise, det = W.gram.facts()
+            pre = pairwise + det + pre
+            W.heavy = det  # kept alive here: dropped (by term id) from the first proof attempt of each goal
+            W.pre += pre
+            assume(*pre)
+
+    def realise(self, mode, vals):
+        """Coordinates (values of eci_*_i / sun_i) with the Gram matrix of a model, written into vals."""
+        W = self.W
+        if W.gram is None or W.gram.linked:  # linked: the model's own coordinates are consistent with the cut variables
+            return
+        vecs = W.gram.realise(vals)
+        h = self.hosts[0].tag
+        put = lambda name, v: vals.update({f"{name}_{i}": float(v[i]) for i in range(3)})  # noqa: E731
+        if W.chain == "los":
+            for n, v in vecs.items():
+                put(f"eci_{n}", v)
+        else:
+            (ref,) = W.formal
+            put(f"eci_{ref}", vecs["R"]), put("sun", vecs["R"] + vecs["D"]), put(f"eci_{h}", vecs["R"] - vecs["B"])
+
     def arm_limits(self, mode):
         """vischain sensors: detectable_vismag := magnitude of the reference target (primary truth / estimate) at phase angle arccos(ulim),
         by the harness's own Lambertian-sphere formula.  Symbolic runs: inside the shadows (arccos / phase function / log10 contracts)."""
@@ -869,6 +1046,75 @@ def magnitude_within_limit(W, p, t):
     return k > 0 and SUN_MAGNITUDE - 2.5 * math.log10(k) <= p["vmlim"]
 
 
+SUN_CONE = math.pi / 12  # documented Sun-exclusion half-angle of space-based optical sensors (15 degrees)
+SUN_COS_TOL = 1e-9  # band of the Sun-cone oracle, on the cosine
+LOS_TOL_KM2 = 1.0  # band of the line-of-sight oracle, on the squared distance (km^2; 1 km^2 at the surface = 8 cm)
+
+
+def _earth_radius():
+    from resonaate.physics.bodies import Earth
+
+    return float(Earth.radius)
+
+
+class Band:
+    """A constraint decided with a tolerance band: `lo` = holds under the lenient reading (demanded of reported observations),
+    `hi` = holds under the strict reading (its negation is demanded when a miss names the constraint as failing)."""
+
+    def __init__(self, lo, hi):
+        self.lo, self.hi = lo, hi
+
+
+def LO(x):
+    return x.lo if isinstance(x, Band) else x
+
+
+def HI(x):
+    return x.hi if isinstance(x, Band) else x
+
+
+def segment_clear_of_earth(W, h, t):
+    """Unobstructed line of sight by the positions alone: the point of the segment sensor -> target closest to the geocentre (orthogonal
+    projection of the geocentre onto the line, clamped to the segment) is not inside the sphere of the Earth's radius."""
+    r2, m = _earth_radius() ** 2, LOS_TOL_KM2
+    if W.sym:
+        lh, lt = W.vecs[f"eci_{h}"].lin, W.vecs[f"eci_{t}"].lin
+        a, b, c = (_raw(W.gram.dot(x, y)) for x, y in ((lh, lh), (lt, lt), (lh, lt)))
+        den = a + b - 2 * c  # |target - sensor|^2
+        ts = (a - c) / den
+        lam = z3.If(ts < 0, rv(0), z3.If(ts > 1, rv(1), ts))
+        dmin2 = a + 2 * lam * (c - a) + lam * lam * den
+        W.margins.append((dmin2, rv(r2), rv(r2)))
+        W.magnitudes += [(a, rv(r2), rv(1e11)), (b, rv(r2), rv(1e11)), (den, rv(1), rv(1e11))]
+        return Band(dmin2 >= rv(r2 - m), dmin2 >= rv(r2 + m))
+    ph, pt = (np.array([float(x) for x in W.vecs[f"eci_{n}"][:3]]) for n in (h, t))
+    d = pt - ph
+    lam = min(1.0, max(0.0, -float(ph @ d) / float(d @ d))) if float(d @ d) > 0 else 0.0
+    q = ph + lam * d
+    dmin2 = float(q @ q)
+    return Band(dmin2 >= r2 - m, dmin2 >= r2 + m)
+
+
+def outside_sun_cone(W, h, t):
+    """Sun exclusion of a space-based optical sensor by the positions alone: the angle between the line of sight (sensor -> target) and the
+    direction to the Sun is at least 15 degrees.  The documentation takes the Sun direction from the sensor, the code from the target
+    (they differ by the parallax range / 1 au): both readings are accepted (lenient: one of them holds; strict: both hold)."""
+    sun, tp, hp = W.vec("sun", 3, {"S"}), W.vecs[f"eci_{t}"][:3], W.vecs[f"eci_{h}"][:3]
+    b, d_t, d_h = tp - hp, sun - tp, sun - hp
+    c = math.cos(SUN_CONE)
+    if W.sym:
+        G = W.gram
+        nb = G.norm(b.lin)
+        us = [G.dot(d.lin, b.lin) / (G.norm(d.lin) * nb) for d in (d_t, d_h)]
+        for u in us:
+            W.margins.append((_raw(u), rv(c), rv(1)))
+        W.magnitudes += [(_raw(G.dot(b.lin, b.lin)), rv(1e2), rv(1e10))] + [(_raw(G.dot(x.lin, x.lin)), rv(1e12), rv(1e18)) for x in (d_t, d_h)]
+        return Band(OR(*[_raw(u <= c + SUN_COS_TOL) for u in us]), AND(*[_raw(u <= c - SUN_COS_TOL) for u in us]))
+    b, d_t, d_h = (np.array([float(x) for x in v]) for v in (b, d_t, d_h))
+    us = [float(d @ b) / (np.linalg.norm(d) * np.linalg.norm(b)) for d in (d_t, d_h)]
+    return Band(any(u <= c + SUN_COS_TOL for u in us), all(u <= c - SUN_COS_TOL for u in us))
+
+
 def conjuncts(W, sp, p, t):
     """Explanation -> 'this constraint holds' for target tag t seen from sensor p['h'] (z3 terms or python bools).
 
@@ -886,7 +1132,7 @@ def conjuncts(W, sp, p, t):
         c[X.MINIMUM_RANGE] = rng >= p["rmin"]
     if p["rmax"] is not None:
         c[X.MAXIMUM_RANGE] = rng <= p["rmax"]
-    c[X.LINE_OF_SIGHT] = P(f"los_{h}_{t}")
+    c[X.LINE_OF_SIGHT] = segment_clear_of_earth(W, h, t) if (W.chain == "los" and t in W.formal) else P(f"los_{h}_{t}")
     c[X.ELEVATION_MASK] = AND(el >= p["el0"], el <= p["el1"])
     inside, outside = AND(az >= p["az0"], az <= p["az1"]), OR(az >= p["az0"], az <= p["az1"])
     nowrap = p["az0"] <= p["az1"]
@@ -896,7 +1142,7 @@ def conjuncts(W, sp, p, t):
         c[X.VIZ_MAG] = magnitude_within_limit(W, p, t) if sp.vischain else P(f"vismag_{h}_{t}") <= p["vmlim"]
         c[X.GALACTIC_EXCLUSION] = P(f"gal_{h}_{t}")
         if sp.space:
-            c[X.SPACE_ILLUMINATION] = P(f"spl_{h}_{t}")
+            c[X.SPACE_ILLUMINATION] = outside_sun_cone(W, h, t) if (W.chain == "sun" and t in W.formal) else P(f"spl_{h}_{t}")
             c[X.LIMB_OF_EARTH] = NOT(P(f"limb_{h}_{t}"))
         else:
             c[X.GROUND_ILLUMINATION] = P(f"dark_{h}")
@@ -935,7 +1181,7 @@ def outcome_goals(sc, k, obs, missed, boresight, tlt, check_state=True):
         t = sc.tag_of_id[o.target_id]
         seen[t] = seen.get(t, 0) + 1
         c = conjuncts(W, sp, p, t)
-        g_con.append(AND(W.P(f"infov_{h}_E_{t}"), *c.values()))
+        g_con.append(AND(W.P(f"infov_{h}_E_{t}"), *[LO(x) for x in c.values()]))
         g_noslew.append(slew)
         vals = {"azimuth_rad": W.P(f"az_{h}_{t}"), "elevation_rad": W.P(f"el_{h}_{t}"), "range_km": W.P(f"rng_{h}_{t}"),
                 "range_rate_km_p_sec": W.P(f"rr_{h}_{t}")}
@@ -963,7 +1209,7 @@ def outcome_goals(sc, k, obs, missed, boresight, tlt, check_state=True):
         elif why == X.FIELD_OF_VIEW:
             reasons.append(NOT(W.P(f"infov_{h}_E_T0")))
         elif why in c0:
-            reasons.append(NOT(c0[why]))
+            reasons.append(NOT(HI(c0[why])))
         else:
             reasons.append(False)  # no reason / a reason that is not a constraint of this sensor
     G["O2-exactly-one"] = AND(*struct)
@@ -1050,6 +1296,14 @@ def _robust(W, sc):
                 cs.append(z3.And(sum(x * x for x in dd) >= 1, sum(x * x for x in ds) >= 1))
             for nm, n in [("sun", 3), (f"eci_{h}", 3)] + [(f"eci_{t}", 3) for t in tags]:
                 cs += [z3.And(z3.Real(f"{nm}_{i}") >= -1e6, z3.Real(f"{nm}_{i}") <= 1e6) for i in range(n)]
+        if W.gram is not None:
+            # los-* / sun-* scenes: the oracle's own comparisons and every cosine that went through arccos stay away from the thresholds; squared
+            # lengths in ranges where doubles are comfortable
+            for lhs, rhs, scale in W.margins:
+                cs.append(z3.Or(lhs - rhs > eps * scale, rhs - lhs > eps * scale))
+            cs += [z3.And(t >= lo, t <= hi) for t, lo, hi in W.magnitudes]
+            for _a, u in (W.path.apps.get("arccos", []) if W.path is not None else []):
+                far(u, math.cos(SUN_CONE))
         far(p["az0"], p["az1"])
         far(p["rate"] * (sc.tnow.t - p["tlast"]), z3.Real(f"delta_{h}_E"))
         cs.append(z3.And(z3.Real(f"delta_{h}_E") > eps, z3.Real(f"delta_{h}_E") < PI - eps, p["rate"] < 10, sc.tnow.t - p["tlast"] < 1e5,
@@ -1223,6 +1477,7 @@ def _mk_inputs(W, sc, mode, goal, cons, extra=None):
                 m = v.model
                 break
         vals = _model_values(m, [goal], names, W.vecs)
+        sc.realise(mode, vals)
         d = {"mode": mode, "specs": [s.asdict() for s in sc.specs], "nbg": sc.nbg, "values": vals}
         d.update(extra or {})
         return d
@@ -1256,10 +1511,12 @@ def _concrete_scene(d, realgeo):
 def _run_mode(W, sc, d):
     """Run the real code for one scene; returns {name: goal value} (z3 or python)."""
     mode = d["mode"] if isinstance(d, dict) else d
+    sc.arm_chain(mode)
     if mode == "collect":
         with _Shadows(W):
             sc.arm_limits("collect")
             obs, missed, bore, tlt = sc.sensors[0].collectObservations(sc.estimate.eci_state, sc.primary, list(sc.background))
+            W.pin_arccos()
         G = outcome_goals(sc, 0, obs, missed, bore, tlt)
         G["O1-epoch"] = epoch_goal(W, sc)
         return G, {"obs": [(o.target_id) for o in obs], "missed": [(m.target_id, m.reason) for m in missed]}
@@ -1296,14 +1553,14 @@ def _run_mode(W, sc, d):
         with _Shadows(W):
             sc.arm_limits("predict")
             out = predictObservation(host, sc.estimate)
+            W.pin_arccos()
         c = conjuncts(W, sp, p, "E")
-        want = AND(slew_ok(W, p, sc.tnow), *c.values())
         G = {}
         h = p["h"]
         if out is None:
-            G["O4-iff"] = NOT(want)
+            G["O4-iff"] = NOT(AND(slew_ok(W, p, sc.tnow), *[HI(x) for x in c.values()]))
         else:
-            G["O4-iff"] = want
+            G["O4-iff"] = AND(slew_ok(W, p, sc.tnow), *[LO(x) for x in c.values()])
             vals = {"azimuth_rad": W.P(f"az_{h}_E"), "elevation_rad": W.P(f"el_{h}_E"), "range_km": W.P(f"rng_{h}_E"), "range_rate_km_p_sec": W.P(f"rr_{h}_E")}
             lab = expected_labels(sp)
             ok = (isinstance(out, Observation) and out.target_id == sc.estimate.simulation_id and out.sensor_id == host.simulation_id
@@ -1313,6 +1570,27 @@ def _run_mode(W, sc, d):
         G["O1-epoch"] = epoch_goal(W, sc)
         return G, {"prediction": out is not None}
     raise ValueError(mode)
+
+
+def _chain_geometry(W, sc):
+    """los-* / sun-* replays: the positions the real code ran on and the quantity the oracle decided from them."""
+    h = sc.hosts[0].tag
+    pos = lambda n: [float(x) for x in W.vecs[n][:3]]  # noqa: E731
+    out = {"sensor": pos(f"eci_{h}")}
+    for t in sorted(W.formal):
+        out[f"target {t}"] = pos(f"eci_{t}")
+        ph, pt = np.array(out["sensor"]), np.array(out[f"target {t}"])
+        if W.chain == "los":
+            d = pt - ph
+            lam = min(1.0, max(0.0, -float(ph @ d) / float(d @ d)))
+            out[f"closest approach of the segment sensor -> {t} to the geocentre (km)"] = float(np.linalg.norm(ph + lam * d))
+            out["Earth radius (km)"] = _earth_radius()
+        else:
+            sun = np.array(pos("sun"))
+            out["Sun"] = sun.tolist()
+            ang = lambda a, b: math.degrees(math.acos(max(-1.0, min(1.0, float(a @ b) / float(np.linalg.norm(a) * np.linalg.norm(b))))))  # noqa: E731
+            out[f"angle line of sight / Sun direction, {t} (deg; Sun seen from target, from sensor)"] = [ang(pt - ph, sun - pt), ang(pt - ph, sun - ph)]
+    return out
 
 
 def replay_scene(d):
@@ -1337,6 +1615,8 @@ def replay_scene(d):
             lim = [p.get("vmlim") for p in sc.par if p.get("ulim") is not None]
             if lim:
                 keep["detectable_vismag (from ulim)"] = lim
+            if W.chain:
+                keep["positions (km, ECI)"] = _chain_geometry(W, sc)
             return True, {"level": level, "violated": bad, "reported": out, "primitives": keep, "specs": d["specs"]}
     return False, detail
 
@@ -1406,6 +1686,7 @@ def o_scene(rep, mode, specs, nbg, max_paths=20000, expect_reasons=None, need_bg
     res = explore(run, max_paths=max_paths, max_depth=400, branch_timeout_ms=1500 if any(s.vischain for s in specs) else 10000)
     rep.note(f"{mode} {[(s.kind, 'space' if s.space else 'ground') for s in specs]} nbg={nbg}: paths={len(res)}")
     seen_reasons, n_obs_prim, n_obs_bg, n_noslew, n_pred = set(), 0, 0, 0, 0
+    chain_sides = set()
     samples = {
         "O1-constraints": "every reported observation: FoV about the commanded pointing, range limits, LoS, masks, phenomenology all hold",
         "O1-slew-reach": "every reported observation was made after a pointing the sensor could slew to",
@@ -1440,6 +1721,10 @@ def o_scene(rep, mode, specs, nbg, max_paths=20000, expect_reasons=None, need_bg
             n_noslew += any(str(m[-1]).startswith("Slew") for m in out["missed"])
         if mode == "predict":
             n_pred += bool(out["prediction"])
+        if W.gram is not None:
+            gn = set(W.gram.var_names()) | {str(a) for a, _u in r.path.apps.get("arccos", [])}
+            dec = [bool(d) for c, d in zip(r.path.pc, r.path.decisions) if free_vars(c) & gn]
+            chain_sides |= set(dec[-1:])  # the last decision over the positions on this path: the un-stubbed predicate's verdict
         # one query per path: the conjunction of all goal classes (trivially true ones dropped); the replay names the violated classes
         active = {}
         for name, g in G.items():
@@ -1457,7 +1742,7 @@ def o_scene(rep, mode, specs, nbg, max_paths=20000, expect_reasons=None, need_bg
             continue
         # scenes with the limiting-magnitude chain on real geometry carry non-linear path constraints: one query per conjunct of each goal
         # class there (measured: the conjunction 10 s, the conjuncts one by one 0.02 s each)
-        if W.vischain:
+        if W.vischain or W.gram is not None:
             groups = []
             memo, alive = {}, []  # every term the memo has seen stays referenced while the memo is in use (z3 reuses the ids of freed terms)
             cons_fv = [(c, _vars_of(c, memo)) for c in cons]
@@ -1477,6 +1762,24 @@ def o_scene(rep, mode, specs, nbg, max_paths=20000, expect_reasons=None, need_bg
             nv, ne = len(rep.violations), sum(1 for i in rep.items if i["verdict"] == "error")
             use, full = cons, cons
             what = "; ".join(sorted({samples.get(n.split('@')[0], n) for n in grp}))
+            if W.gram is not None:
+                # los-* / sun-* scenes: one query per conjunct on its cone of influence; first without the 3x3 determinant fact of the Gram
+                # cut (it couples the cut variables of all pairs; dropping a hypothesis only weakens them, so unsat is conclusive)
+                alive.append(conj)
+                heavy = {c.get_id() for c in getattr(W, "heavy", [])}
+                gv = _vars_of(conj, memo)
+                done = False
+                for how, cs in (("constraints over the goal's variables only", [c for c, fv in cons_fv if fv <= gv]),
+                                ("cone of influence, determinant fact dropped", _cone(conj, [(c, fv) for c, fv in cons_fv if c.get_id() not in heavy], memo))):
+                    v = refute(conj, cs, 5000)
+                    if v.status == "unsat":
+                        rep._item(label, "prove", v, {"how": how})
+                        rep.sample({"obligation": f"{rep.ob}:{label}", "verdict": v.status, "what": what})
+                        done = True
+                        break
+                if done:
+                    continue
+                use = _cone(conj, cons_fv, memo)
             if W.vischain:
                 alive.append(conj)
                 use = _cone(conj, cons_fv, memo)
@@ -1524,6 +1827,8 @@ def o_scene(rep, mode, specs, nbg, max_paths=20000, expect_reasons=None, need_bg
             guard("reach-background-observation", "no path reports a background observation")
         if not n_noslew:
             guard("reach-slew-fail", "no path fails the slew test")
+    if specs[0].chain and chain_sides != {True, False}:
+        guard("reach-chain", f"the un-stubbed {specs[0].chain} predicate must be decided both ways on the positions (seen: {sorted(chain_sides)})")
     if mode == "predict" and (n_pred == 0 or n_pred == len(res)):
         guard("reach-prediction", "both outcomes (prediction / None) must be reachable")
 
@@ -1747,6 +2052,20 @@ def obligations(tier):
             (lambda sp, mode, bg: lambda rep: o_scene(rep, mode, [sp], int(bg), expect_reasons=_expected_reasons(sp) if mode == "collect" else None))(sp, mode, bg),
             f"O1/O2/O4 limiting magnitude decided on the Sun/target/sensor positions: {'collectObservations' if mode == 'collect' else 'predictObservation'}, "
             f"{_name(sp)}, full-sky masks, limit parametrised against the {'background target' if bg else 'primary target' if mode == 'collect' else 'estimate'}", 240)
+    # line of sight / Sun cone decided on the positions: the real lineOfSight / checkSpaceSensorLightingConditions run inside the pipeline
+    geo = [("los", "collect", "radar", True, 1, "primary"), ("los", "predict", "optical", True, 0, "primary"),
+           ("sun", "collect", "optical", True, 0, "primary"), ("sun", "predict", "optical", True, 0, "primary")]
+    if tier != "quick":
+        geo += [("los", "collect", "optical", False, 1, "primary"), ("los", "predict", "advradar", False, 0, "primary"),
+                ("sun", "collect", "optical", True, 1, "background")]
+    for chain, mode, kind, space, n, ref in geo:
+        sp = Spec(kind, space, reduced=True, chain=chain, chain_ref=ref)
+        what = ("unobstructed line of sight decided on the sensor / target positions (segment against the Earth sphere)" if chain == "los" else
+                "Sun exclusion decided on the Sun / target / sensor positions (angle between line of sight and Sun direction)")
+        add(f"{chain}-{mode}{'-background' if ref == 'background' else ''}-{_name(sp)}",
+            (lambda sp, mode, n: lambda rep: o_scene(rep, mode, [sp], n, expect_reasons=_expected_reasons(sp) if mode == "collect" else None))(sp, mode, n),
+            f"O1/O2/O4 {what}: {'collectObservations' if mode == 'collect' else 'predictObservation'}, {_name(sp)}, full-sky masks, "
+            f"{'1 primary + %d background' % n if mode == 'collect' else 'the estimate'}", 240)
     add("async-radar-ground", lambda rep: o_scene(rep, "async", [Spec("radar", False)], 1, expect_reasons=_expected_reasons(Spec("radar", False))),
         "O1-O3 through asyncExecuteTasking, 1 tasked radar + 1 background", 240)
     for kind in ("optical", "radar", "advradar"):
